@@ -118,7 +118,12 @@ func pruneEmpty(dst, src proto.Message, mask fmutils.NestedMask) {
 			return true
 		}
 		if !srcPr.Has(d) {
-			dstPr.Clear(d)
+			if len(fieldMask) > 0 && d.Kind() == protoreflect.MessageKind && d.Cardinality() != protoreflect.Repeated {
+				// the mask only names some fields of this message, the others are not part of the update
+				fieldMask.Prune(dstPr.Get(d).Message().Interface())
+			} else {
+				dstPr.Clear(d)
+			}
 			return true
 		}
 		if d.Kind() == protoreflect.MessageKind && d.Cardinality() != protoreflect.Repeated {
